@@ -2,6 +2,7 @@ import AvroModel.Props.C13
 import AvroModel.Props.C09
 import AvroModel.Props.C07
 import AvroModel.Lemmas.EndToEnd
+import AvroModel.Lemmas.RoundTrip
 /-!
 # C01 — Encode-then-read round trip preserves every record
 
@@ -111,5 +112,52 @@ example : ∃ s' w', encRun exCfg {} (exOps ++ [.flush]) = (s', w', none) ∧ s'
     (by intro r hr rest; simp [exOps, encodings] at hr; rcases hr with rfl | rfl | rfl | rfl <;> rfl)
     (by decide) (by decide) (fun _ => none) (fun _ => rfl)
   simpa [exOps, encodings] using this
+
+/-! ### Values: what is read back is the normal form of what was written -/
+
+/-- **C01, values**: a value `g` written with `Codec.Write` and read back with `Codec.Read` into the
+zeroed destination (the container reader zeroes it before every record) comes back as
+`normCodec … g` — the codec-directed normal form of `Lemmas/RoundTrip.lean`, which identifies nil and
+empty maps, replaces an omitted (omitempty-zero, nil, invalid-wrapper) union member by the zero
+value, truncates times exactly as the logical type does, and is otherwise the identity
+(`normCodec_idem`, `normCodec_plain`) — followed by exactly the rest of the block.
+Hypotheses: the codec is one the library builds for schema `s`; the write succeeded; the
+specification defines the encoding of the written datum (the value is within the schema type's
+range); the side conditions `RTOk` (integers within their Go width, Go maps have distinct keys,
+well-formed record targets, representable times — none of them about nil/empty, omitempty or
+wrapper validity); and the read budget `n'` is not exhausted. -/
+theorem value_roundtrip (c : Codec) (s : ASchema) (hcf : CodecFor c s) (n n' m m' : Nat) (g : GoVal)
+    (bs bs' rest : Bytes) (v : Value)
+    (hw : write env n c g = some bs) (ht : toAvro env (omits env) m c g = some v)
+    (he : encode (canonPlan v) s v = some bs') (hok : RTOk env m' c g)
+    (hnf : read env n' c (bs ++ rest) (Codec.zero env c) ≠ .fuel) :
+    read env n' c (bs ++ rest) (Codec.zero env c) = .ok (normCodec env m' c g, rest) :=
+  record_exact env c s hcf n n' m m' g _ _ bs bs' rest v hw ht he (roundTrip env m' m c g v ht hok) hnf
+
+/-! non-vacuity: `struct { M map[string]int64; P *string; Q *[]int32 }` with a one-entry map, a
+non-nil string pointer and a nil slice pointer (which reads back as a pointer to the empty slice) -/
+
+def exCodec : Codec :=
+  .record [.map true [] [], .ptr none, .ptr none]
+    [.map (.int 64 false) false, .pointer (.string false), .pointer (.array (.int 32 false) false)]
+    [some 0, some 1, some 2]
+def exSchema : ASchema := .record ["M", "P", "Q"] [.map .long, .string, .array .int]
+def exVal : GoVal := .struct [.map false [[97]] [.int 7], .ptr (some (.str [104, 105])), .ptr none]
+def exDatum : Value := .record [.map [[97]] [.int 7], .bytes [104, 105], .array []]
+def exBytes : Bytes := [2, 2, 97, 14, 0, 4, 104, 105, 0]
+
+private def isFuel {α : Type} : Outcome α → Bool | .fuel => true | _ => false
+private theorem ne_fuel_of {α : Type} {o : Outcome α} (h : isFuel o = false) : o ≠ .fuel := by
+  intro e; subst e; simp [isFuel] at h
+
+example : read toyEnv 10 exCodec (exBytes ++ [255]) (Codec.zero toyEnv exCodec)
+    = .ok (.struct [.map false [[97]] [.int 7], .ptr (some (.str [104, 105])), .ptr (some (.slice []))], [255]) := by
+  have hcf : CodecFor exCodec exSchema :=
+    .record (.cons (.map .intL) (.cons (.pointer .string) (.cons (.pointer (.array .intI)) .nil))) rfl
+  have := value_roundtrip toyEnv exCodec exSchema hcf 10 10 10 5 exVal exBytes exBytes [255] exDatum
+    (by decide +kernel) (by rfl) (by decide +kernel)
+    (by simp [RTOk, exCodec, exVal, FieldsOk, Codec.zero, inRange, Codec.ptrDepth])
+    (ne_fuel_of (by decide +kernel))
+  simpa [normCodec, exCodec, exVal, normFieldsWith, listSet, Codec.stripPtr, nilForm] using this
 
 end Avro.C01
